@@ -137,8 +137,14 @@ type walker struct {
 	OnReturn func(w *walker, st *wstate, ret *ssa.Return, results []*absVal)
 	// OnPanic is called at each Panic.
 	OnPanic func(w *walker, st *wstate, p *ssa.Panic)
+	// Inline > 0: calls to functions of the module (static callees with a body, not recursive) are followed up to
+	// this depth instead of being treated as opaque, so that moving code into or out of a helper does not change
+	// what a rule sees. A Seed value for the call instruction takes precedence (the call then stays opaque).
+	// 0 = default (2), negative = never inline.
+	Inline int
 	// Init may pre-populate the memory of the initial state (e.g. the elements of a slice parameter).
 	Init      func(w *walker, st *wstate)
+	seedSkip  *ssa.Call
 	MaxVisits int // per block per path (default 2)
 	MaxPaths  int
 	paths     int
@@ -152,11 +158,86 @@ func (w *walker) Run() {
 	if w.MaxPaths == 0 {
 		w.MaxPaths = 200000
 	}
+	if w.Inline == 0 {
+		w.Inline = 2
+	}
+	if w.Inline > 0 {
+		w.runInlining()
+		return
+	}
 	st := &wstate{vals: map[ssa.Value]*absVal{}, mem: map[string]*absVal{}, allocd: map[string]bool{}, visits: map[*ssa.BasicBlock]int{}}
 	if w.Init != nil {
 		w.Init(w, st)
 	}
 	w.block(st, w.fn.Blocks[0], nil)
+}
+
+// runInlining explores the function with the interprocedural walker, following
+// static calls into the module.
+func (w *walker) runInlining() {
+	x := &xwalker{w: w, MaxSteps: 400000, MaxPaths: w.MaxPaths, MaxVisits: w.MaxVisits}
+	x.Call = func(x *xwalker, st *xstate, call *ssa.Call) ([]xoutcome, bool) {
+		if w.Seed != nil {
+			if a := w.Seed(w, st.wstate, call); a != nil {
+				return []xoutcome{{result: a}}, true
+			}
+		}
+		w.seedSkip = call // the default transfer must not consult Seed a second time
+		var fn *ssa.Function
+		var bind map[ssa.Value]*absVal
+		switch cv := call.Call.Value.(type) {
+		case *ssa.Function:
+			fn = cv
+		case *ssa.MakeClosure:
+			fn, _ = cv.Fn.(*ssa.Function)
+			if fn != nil {
+				bind = map[ssa.Value]*absVal{}
+				for i, fv := range fn.FreeVars {
+					if i < len(cv.Bindings) {
+						bind[fv] = x.eval(st, cv.Bindings[i])
+					}
+				}
+			}
+		}
+		// helpers = functions of the root function's own package
+		if call.Call.IsInvoke() || fn == nil || len(fn.Blocks) == 0 || !inModule(fn) || fn.Pkg != w.fn.Pkg || len(st.frames) > w.Inline {
+			return nil, false
+		}
+		for _, fr := range st.frames {
+			if fr.fn == fn {
+				return nil, false // recursion
+			}
+		}
+		var args []*absVal
+		for _, a := range call.Call.Args {
+			args = append(args, x.eval(st, a))
+		}
+		w.seedSkip = nil
+		return []xoutcome{{inline: fn, args: args, bind: bind}}, true
+	}
+	x.OnReturn = func(x *xwalker, st *xstate, rs []*absVal) {
+		w.paths++
+		if w.OnReturn != nil {
+			ret, _ := st.user["@ret"].(*ssa.Return)
+			w.OnReturn(w, st.wstate, ret, rs)
+		}
+	}
+	x.OnPanic = func(x *xwalker, st *xstate) {
+		w.paths++
+		if w.OnPanic != nil {
+			pn, _ := st.user["@panic"].(*ssa.Panic)
+			w.OnPanic(w, st.wstate, pn)
+		}
+	}
+	st := &xstate{wstate: &wstate{vals: map[ssa.Value]*absVal{}, mem: map[string]*absVal{}, allocd: map[string]bool{}, visits: map[*ssa.BasicBlock]int{}}, user: map[string]any{}}
+	if w.Init != nil {
+		w.Init(w, st.wstate)
+	}
+	st.frames = []xframe{{fn: w.fn, block: w.fn.Blocks[0]}}
+	x.run(st)
+	if x.Truncated {
+		w.Truncated = true
+	}
 }
 
 func (w *walker) eval(st *wstate, v ssa.Value) *absVal {
@@ -283,7 +364,9 @@ func (w *walker) store(st *wstate, key string, v *absVal) {
 
 func (w *walker) transfer(st *wstate, in ssa.Instruction, prev *ssa.BasicBlock) {
 	v, isVal := in.(ssa.Value)
-	if isVal && w.Seed != nil {
+	if w.seedSkip != nil && in == ssa.Instruction(w.seedSkip) {
+		w.seedSkip = nil
+	} else if isVal && w.Seed != nil {
 		if _, isPhi := in.(*ssa.Phi); !isPhi {
 			if a := w.Seed(w, st, v); a != nil {
 				st.vals[v] = a
